@@ -6,20 +6,16 @@ import XmlDiffModel.Model.Patch
 
 namespace XmlDiffModel
 
-theorem firstHit_of_uniqueHit (qn : QName) (t : Tree) (path : Str) (x : Tree)
+theorem firstHit_of_uniqueHit (qn : QName) (t : Tree) (path : Path) (x : Tree)
     (h : uniqueHit qn t path = .ok x) : firstHit qn t path = .ok x := by
   unfold uniqueHit at h
   unfold firstHit
-  cases hp : parsePath path with
-  | none => simp [hp] at h
-  | some p =>
-    simp only [hp] at h ⊢
-    split at h
+  split at h
+  · cases h
+  · split at h
     · cases h
-    · split at h
-      · cases h
-      · next y heq => cases h; rw [heq]
-      · cases h
+    · next y heq => cases h; rw [heq]
+    · cases h
 
 set_option hygiene false in
 macro "hit" : tactic => `(tactic| (
@@ -41,7 +37,7 @@ macro "chkboth" : tactic => `(tactic| (
 /-- If the strict interpreter accepts an action, the shipped patcher performs it identically. -/
 theorem shipped_of_strict (qn : QName) (s s' : PState) (a : Action)
     (h : applyStrict qn s a = .ok s') : applyShipped qn s a = .ok s' := by
-  cases a <;> simp only [applyStrict, applyShipped, bind, Except.bind] at h ⊢
+  cases a <;> simp only [applyStrict, applyShipped, applyWith, bind, Except.bind] at h ⊢
   case deleteNode n => hit; chkboth; chk; exact h
   case insertNode t g p => hit; chk; exact h
   case renameNode n g => hit; exact h
@@ -78,5 +74,57 @@ theorem runShipped_of_runStrict (qn : QName) (s s' : PState) (as : List Action)
         have := ih s1 hr
         simp only [runShipped] at this
         rw [this]
+
+/-! ### unique addressing refines to first-hit addressing -/
+
+set_option hygiene false in
+macro "hitm" : tactic => `(tactic| (
+  split at h <;> try (cases h; done)
+  rename_i x hx
+  rw [hmono _ _ _ hx]
+  simp only []))
+
+theorem applyWith_mono (hit1 hit2 : Tree → Path → Except Err Tree)
+    (hmono : ∀ t p x, hit1 t p = .ok x → hit2 t p = .ok x) (s s' : PState) (a : Action)
+    (h : applyWith hit1 s a = .ok s') : applyWith hit2 s a = .ok s' := by
+  cases a <;> simp only [applyWith, bind, Except.bind] at h ⊢
+  case deleteNode n => hitm; exact h
+  case insertNode t g p => hitm; exact h
+  case renameNode n g => hitm; exact h
+  case moveNode n t p => hitm; hitm; exact h
+  case updateTextIn n t => hitm; exact h
+  case updateTextAfter n t => hitm; exact h
+  case updateAttrib n k v => hitm; exact h
+  case deleteAttrib n k => hitm; exact h
+  case insertAttrib n k v => hitm; exact h
+  case renameAttrib n a b => hitm; exact h
+  case insertComment t p x => hitm; exact h
+  case insertNamespace p u => exact h
+  case deleteNamespace p => exact h
+
+theorem runWith_mono (f g : PState → Action → Except Err PState)
+    (hfg : ∀ s a s', f s a = .ok s' → g s a = .ok s') (s s' : PState) (as : List Action)
+    (h : runWith f s as = .ok s') : runWith g s as = .ok s' := by
+  induction as generalizing s with
+  | nil => simpa [runWith] using h
+  | cons a rest ih =>
+    simp only [runWith] at h ⊢
+    cases ha : f s a with
+    | error e => simp [ha] at h
+    | ok s1 =>
+      rw [hfg s a s1 ha]
+      simp only [ha] at h ⊢
+      cases hr : runWith f s1 rest with
+      | error e => obtain ⟨k, e'⟩ := e; simp [hr] at h
+      | ok r =>
+        simp only [hr] at h
+        cases h
+        rw [ih s1 hr]
+
+/-- A script accepted under unique addressing is accepted by the shipped patcher, same result. -/
+theorem runShipped_of_runUniq (qn : QName) (s s' : PState) (as : List Action)
+    (h : runUniq qn s as = .ok s') : runShipped qn s as = .ok s' :=
+  runWith_mono (applyUniq qn) (applyShipped qn)
+    (fun s a s' h => applyWith_mono _ _ (firstHit_of_uniqueHit qn) s s' a h) s s' as h
 
 end XmlDiffModel
